@@ -19,11 +19,12 @@
     Windows x86-64 (record up to 240 bytes above `rbp`, probed in 16-byte steps): PROVED as
     `walk_layout_fp_win` for chains of any depth, under `preFpWin` (= `preFp` with an 8-byte aligned
     outermost record at or above the last stack pointer).
-  * scan-only chains — PROVED for chains of ANY depth on ARM64 (both layouts) and MIPS64
-    (`walk_layout_scan`, `walk_layout_scan_concrete`; hypothesis `preScan`: junk words below 4096
-    that are not valid instructions, inside the 160/40-word (MIPS64: 128-word) window, then a valid
-    instruction; zero words at the end). On x86, x86-64 (frame-pointer recovery inside the scanner),
-    ARM32 and MIPS32 (4-word skip) the same statement is only sampled by the tie.
+  * scan-only chains — PROVED for chains of ANY depth on all seven context kinds/modes:
+    `walk_layout_scan` (ARM64 both layouts, MIPS64) and `walk_layout_scan'` (x86, x86-64 — the junk
+    words below 4096 defeat the scanners' frame-pointer recovery —, ARM32 not iOS, MIPS32 with its
+    4-word skip), with `_concrete` versions from `Pre … .scan`; hypothesis `preScan`: junk words
+    below 4096 that are not valid instructions, inside the 160/40-word (MIPS: 1024-byte) window,
+    then a valid instruction; zero words at the end.
   * canonical STACK CFI chains — the precondition `preCfi` is defined and evaluated on every
     generated case, the tie compares `walk_stack`, the generated chain and the model for all seven
     context kinds/modes, but the induction theorem is only stated (comment `walk_layout_cfi`).
@@ -39,6 +40,7 @@ import MdProofs.Lemmas.WalkChain
 import MdProofs.Lemmas.WalkScanChain
 import MdProofs.Lemmas.WalkChainMixed
 import MdProofs.Lemmas.WalkFpWin
+import MdProofs.Lemmas.WalkScanChain32
 namespace MdModel.Walk
 open MdModel
 
@@ -256,6 +258,49 @@ theorem expectedMix_trust (env : Env) (a : Arch) (ha : a = .arm64 ∨ a = .arm64
   simp only [expectedMix, List.head?_cons, Option.map_some, symbolise_trust, mixFrame]
   rcases ha with ha | ha <;> subst ha <;> by_cases h : e.tech = "fp" <;> simp [h, fpFrame, scanFrame]
 
+/-- **C04, scan-only chains (any depth) on x86, x86-64, ARM32 (not iOS) and MIPS32.** "…findable
+    only by scanning for return addresses … scan windows of 40/160 words …": in an environment
+    without CFI, for a context with all registers valid and a zero frame pointer, stack memory at
+    or above 4096 (so that nothing is readable at the zero frame pointer): the walker returns the
+    context frame, then one `scan` frame per generated call with the generated return address and
+    stack pointer, lookup address `ret - adj`, no recovered frame pointer (the junk words below
+    4096 defeat the frame-pointer recovery of the x86 scanners), MIPS32 skipping four words on every
+    frame but the first — and stops at the generated end of stack. On ARM32 the by-symbols check
+    must reject the word 0 (`hok0`; `instruction_seems_valid_by_symbols` does: `mkEnv_instrOk_zero`). -/
+theorem walk_layout_scan' (env : Env) (a : Arch) (harch : env.arch = a) (ha : a.scan32 = true)
+    (hos : a = .arm → env.os ≠ .ios) (hcfi : NoCfi env) (hok0 : a = .arm → env.instrOk 0 = false)
+    (mem : Mem) (hm : mem.range?.isSome = true) (hbase : 4096 ≤ mem.base)
+    (ctx : Ctx) (hv : ctx.valid = none) (hfp : ctx.raw a a.fpName = 0) (h64 : ctx.m64 = false)
+    (hsp : ctx.sp ≤ a.regMax) (chain : List Exp)
+    (hpre : preScanFrom env a mem ctx.sp true chain = true) :
+    walk env (some mem) ctx = symbolise env (Frame.ofCtx ctx .context) :: expectedScan32 env a chain := by
+  have hused : (some mem).bind (fun m => m.range?.map fun _ => m) = some mem := by
+    obtain ⟨r, hr⟩ := Option.isSome_iff_exists.mp hm
+    simp [hr]
+  unfold walk
+  simp only [hused]
+  exact walkLoop_scan32_chain ha harch hos hcfi hbase hok0 chain (walkFuel mem) (Frame.ofCtx ctx .context) none
+    (ctx.sp, true) (scan_view_context32 a ha ctx hv hfp h64 hsp) hpre (need_context_le mem ctx)
+
+/-- `instruction_seems_valid_by_symbols(0)` is false (`0.saturating_sub(1) == 0`) -/
+theorem mkEnv_instrOk_zero (a : Arch) (os : Os) (w : World) (mem : Mem) : (mkEnv a os w mem).instrOk 0 = false := by
+  simp [mkEnv, instrOkOf]
+
+theorem walk_layout_scan'_concrete (a : Arch) (os : Os) (w : World) (mem : Mem) (ctx : Ctx) (chain : List Exp)
+    (ha : a.scan32 = true) (h64 : ctx.m64 = false) (hsp : ctx.sp ≤ a.regMax)
+    (hpre : Pre w (mkEnv a os w mem) a os .scan mem ctx chain = true) :
+    walk (mkEnv a os w mem) (some mem) ctx =
+      symbolise (mkEnv a os w mem) (Frame.ofCtx ctx .context) :: expectedScan32 (mkEnv a os w mem) a chain := by
+  simp only [Pre, preScan, Bool.and_eq_true, Option.isNone_iff_eq_none, decide_eq_true_eq, Bool.not_eq_true'] at hpre
+  obtain ⟨hm, hno, ⟨⟨⟨hbase, hv⟩, hfp⟩, hni⟩, hp⟩ := hpre
+  refine walk_layout_scan' (mkEnv a os w mem) a rfl ha ?_ (mkEnv_noCfi a os w mem hno)
+    (fun _ => mkEnv_instrOk_zero a os w mem) mem hm hbase ctx hv hfp h64 hsp chain hp
+  intro harm hio
+  have hos : os = .ios := hio
+  subst harm
+  subst hos
+  simp at hni
+
 /-
   Stated, not proved (the tie checks them on every generated case; see the header):
 
@@ -273,9 +318,6 @@ theorem expectedMix_trust (env : Env) (a : Arch) (ha : a = .arm64 ∨ a = .arm64
       `.raSearch` variants, FPO with and without a base pointer, grand-callee parameter sizes,
       the leftover-return-address skip on the context frame only).
 
-  theorem walk_layout_scan' : `walk_layout_scan` for x86, x86-64, ARM32 and MIPS32
-      (`Pre … .scan` already states their preconditions: junk below 4096 defeats the frame-pointer
-      recovery of the x86 scanners; MIPS32 skips 4 words on every frame but the first).
   theorem walk_layout_cfi (a : Arch) (os : Os) (w : World) (mem : Mem) (ctx : Ctx) (chain : List Exp) :
       Pre w (mkEnv a os w mem) a os .cfi mem ctx chain = true →
       walk (mkEnv a os w mem) (some mem) ctx = context frame :: chain.map (cfi frame of e)
@@ -347,6 +389,28 @@ example : (walk { arch := .amd64, os := .windows, cfi := fun _ _ => none, instrO
                   symb := fun _ => (none, none), mask := 0 }
       (some exWinMem) { ip := 0x7000, sp := 4096, rest := [("rbp", 4096)] }).length = 2 := by
   rw [walk_layout_fp_win _ rfl rfl (fun _ _ => rfl) exWinMem (by decide) _ rfl rfl exWinChain (by decide)]
+  rfl
+
+/-! ## non-vacuity: an x86 stack whose two return addresses are findable only by scanning -/
+
+def exScanMem : Mem :=
+  { base := 4096, bytes := #[
+      7, 0, 0, 0,   0x00, 0x50, 0, 0,     -- junk 7, then 0x5000
+      0x00, 0x60, 0, 0,                   -- 0x6000 right at the caller's stack pointer
+      0, 0, 0, 0,   0, 0, 0, 0,   0, 0, 0, 0 ] }
+
+def exScanEnv : Env :=
+  { arch := .x86, os := .other, cfi := fun _ _ => none, instrOk := fun ip => ip == 0x5000 || ip == 0x6000,
+    symb := fun _ => (none, none), mask := 0 }
+
+def exScanChain : List Exp := [ { ret := 0x5000, sp := 0x1008, fp := none }, { ret := 0x6000, sp := 0x100c, fp := none } ]
+
+example : preScanFrom exScanEnv .x86 exScanMem 4096 true exScanChain = true := by decide
+
+example : (walk exScanEnv (some exScanMem) { ip := 0x7000, sp := 4096, rest := [("ebp", 0)] }).map (·.trust) =
+    [.context, .scan, .scan] := by
+  rw [walk_layout_scan' exScanEnv .x86 rfl rfl (fun h => by cases h) (fun _ _ => rfl) (fun h => by cases h)
+    exScanMem (by decide) (by decide) _ rfl rfl rfl (by decide) exScanChain (by decide)]
   rfl
 
 end MdModel.Walk
